@@ -512,6 +512,12 @@ def selftest():
     results["read one byte past a flush-right haystack kills the child and is attributed"] = \
         p.returncode == -11 and cur.get("poke") is True
 
+    # 4b. a call into the code under test that never returns ends the harness with exit code 97
+    p = subprocess.run([BIN, "hang", "--out", os.path.join(wd, "h"), "--shards", "1"], stdout=subprocess.PIPE,
+                       stderr=subprocess.PIPE, text=True, env=dict(os.environ, ACVERIF_CALL_LIMIT_S="1"), timeout=60)
+    results["a call that never returns is noticed by the harness monitor and attributed"] = \
+        p.returncode == 97 and "HANG" in p.stderr and "selftest" in p.stderr
+
     # 5. the model has teeth: un-repair F1 in a scratch copy of the specification
     sd = os.path.join(wd, "spec")
     shutil.copytree(SPEC, sd)
